@@ -78,6 +78,8 @@ def replay_history(chk, h, l, shared=None):
             twins[got[1][1]] = remotelib.make(req['kind'], l)
         else:
           op, i = req['op'], req['id']
+          if op == 'gboom':
+            remotelib.GATE.set()        # single client: the gate opens before the evaluation ends
           status, got = dist.run_with_deadline(lambda: _outcome(lambda: rem.op(i, op)), 20)
           if op == 'iter':
             local = _outcome(lambda: ('ref', len(twins) + 1))
@@ -172,7 +174,7 @@ def record_concurrent(seed, n_clients, l, ops_per_client, with_shutdown):
     for k in kinds:          # sequential set-up by c1: creation order fixes the ids
       log(dict(ev='Call', c='c1', t='new', kind=k, id=0, op=''))
       log(ret_event('c1', _outcome(lambda: rem.new(k))))
-    ops_of = dict(iter=['next'], cnt=['bump', 'bump', 'count'], box=['val', 'boom', 'items1', 'nope', 'plus1'])
+    ops_of = dict(iter=['next'], cnt=['bump', 'bump', 'count'], box=['val', 'boom', 'items1', 'nope', 'plus1', 'tmo'])
     programs = {}
     for ci in range(n_clients):
       prog = []
@@ -214,6 +216,44 @@ def record_concurrent(seed, n_clients, l, ops_per_client, with_shutdown):
       hung = hung or t.is_alive()
     if with_shutdown:
       remotelib.leave_shutting(server)
+  return trace, hung
+
+
+def record_spanning():
+  """An evaluation that is inside the handler when shutdown is requested and fails afterwards."""
+  trace = []
+  tlock = threading.Lock()
+
+  def log(**ev):
+    with tlock:
+      trace.append(dict(dict(ev='', c='', t='', kind='', id=0, op='', k='', n=0, e=''), **ev))
+
+  remotelib.GATE.clear()
+  remotelib.ENTERED.clear()
+  with remotelib.server_and_client('span') as (mods, server, client):
+    rem = remotelib.Remote(mods, client, 2)
+    log(ev='Call', c='c1', t='new', kind='box')
+    out = _outcome(lambda: rem.new('box'))
+    log(ev='Ret', c='c1', k='ref', n=out[1][1])
+    box = {}
+
+    def call():
+      log(ev='Call', c='c1', t='op', id=1, op='gboom')
+      box['out'] = _outcome(lambda: rem.op(1, 'gboom'))
+
+    t = threading.Thread(target=call, daemon=True)
+    t.start()
+    inside = remotelib.ENTERED.wait(10)
+    log(ev='ShutdownReq')
+    remotelib.enter_shutting(server)
+    log(ev='ShutdownDone')
+    log(ev='OpenGate')
+    remotelib.GATE.set()
+    t.join(20)
+    hung = t.is_alive() or not inside
+    o = box.get('out', ('err', 'hang', ''))
+    log(ev='Ret', c='c1', k='err' if o[0] == 'err' else 'int', n=0 if o[0] == 'err' else o[1][1], e=o[1] if o[0] == 'err' else '')
+    remotelib.leave_shutting(server)
   return trace, hung
 
 
@@ -318,6 +358,11 @@ def body(chk):
     hung += h
     if h:
       chk.violation('concurrent:hang', f'seed {chk.seed * 1000 + j}: a client thread did not finish', dict(kind='remote-trace', trace=tr))
+    traces.append(tr)
+  for j in range(6 if thorough else 2):
+    tr, h = record_spanning()
+    if h:
+      chk.violation('spanning:hang', 'the gated evaluation never returned', dict(kind='remote-trace', trace=tr))
     traces.append(tr)
   tconsts = dict(Clients={'c1', 'c2', 'c3'}, L=l, MaxCalls=40, MaxObjs=40, Kinds={'iter', 'cnt', 'box', 'list'}, AllowShutdown=True)
   accepted, rejected, res = tracecheck.validate('remote', 'Trace_Remote', traces, tconsts, invariants=INVS)
